@@ -493,7 +493,24 @@ pub fn format_local_assignment_no_trivia(
         }
 
         // If the var list ended with a comment, we need to hang the equals token
-        if name_list.has_trailing_comments(trivia_util::CommentSearch::Single) {
+        // The attribute or the type of the last name is printed behind it, and may end with a comment too
+        #[allow(unused_mut)]
+        let mut name_list_comment =
+            name_list.has_trailing_comments(trivia_util::CommentSearch::Single);
+        #[cfg(feature = "lua54")]
+        if let Some(Some(attribute)) = attributes.last() {
+            name_list_comment |= attribute
+                .brackets()
+                .tokens()
+                .1
+                .has_trailing_comments(trivia_util::CommentSearch::Single);
+        }
+        #[cfg(feature = "luau")]
+        if let Some(Some(type_specifier)) = type_specifiers.last() {
+            name_list_comment |= trivia_util::ends_with_singleline_comment(type_specifier);
+        }
+
+        if name_list_comment {
             const EQUAL_TOKEN_LEN: usize = "= ".len();
             shape = shape
                 .reset()
